@@ -483,6 +483,8 @@ def run(check):
     genmod.DOC_WORDS = (list(genmod.DOC_WORDS) + DOC_EXTRA) * 6 + DOC_RARE
     genmod.VARIANT_WORDS = list(genmod.VARIANT_WORDS) + VARIANT_EXTRA
     genmod.FIELD_WORDS = list(genmod.FIELD_WORDS) + FIELD_EXTRA
+    # type names that are (capitalised) Swift keywords: the escape must apply to the whole prefixed name
+    genmod.TYPE_WORDS = list(genmod.TYPE_WORDS) + ["Type", "Protocol", "Any"]
     reported_langs = set()
     for lang in LANGS:
         cases = make_cases(rng, lang, per_lang, check.thorough)
